@@ -14,18 +14,19 @@ def parseCfgLine (w : List String) : Option Cfg :=
   | [cmd, mode, budget, fwd, label, live, slow, validate, ts, seed, learner, short, busy, wflag, async] => do
     let budget ← budget.toNat?
     let _ ← parseBool fwd; let label ← label.toNat?; let _ ← seed.toNat?; let _ ← parseBool learner
-    let _ ← parseBool short; let _ ← busy.toNat?; let wflag ← wflag.toNat?; let _ ← parseBool async
+    let short ← parseBool short; let _ ← busy.toNat?; let wflag ← wflag.toNat?; let _ ← parseBool async
     let validate ← parseBool validate
     if !(isReadCmd cmd || isWriteCmd cmd) || !modeNames.contains mode || label > 3 || wflag > 2 then none
     else if live.length ≠ 3 || slow.length ≠ 3 then none
     else if !(["valid", "future", "maxint", "max"].contains ts) then none
     else
       pure { n := live.length, maxSleep := budget, isWrite := isWriteCmd cmd,
-             tsInvalid := validate && isReadCmd cmd && tsRejected ts mode, hints := 0 }
+             tsInvalid := validate && isReadCmd cmd && tsRejected ts mode, hints := 0,
+             shortRead := short && isReadCmd cmd }
   | _ => none
 
 def rejReason (s : State) : Ev → String
-  | .send peer _ rr sr retry proxy attObs _ =>
+  | .send peer store rr sr retry proxy attObs _ _ =>
     let c := charged peer proxy
     if s.done then "done" else if s.cfg.tsInvalid then "ts-invalid-sent" else if afterOk s then "after-ok"
     else if !(validPeer s peer && validPeer s c) then "peer"
@@ -33,6 +34,8 @@ def rejReason (s : State) : Ev → String
     else if !(attObs = 0 || attObs = getAtt s c + 1) then s!"attempts-count model={getAtt s c + 1}"
     else if !(retry == decide (0 < s.sent)) then "retry-marker"
     else if !(!s.cfg.isWrite || (!rr && !sr)) then "write-flagged"
+    else if let some k := s.owedNow then s!"no-backoff owed={k}"
+    else if s.owedBusy.contains store && !s.busyCredit then "busy-store-resent-without-backoff"
     else "?"
   | .bump q _ =>
     if s.done then "done" else if !(0 < s.credit) then "no-hint-credit"
@@ -51,6 +54,7 @@ def rejReason (s : State) : Ev → String
     | .regionPseudo => "pseudo"
     | .errBudget => if budgetSpent s then "err" else "error-before-budget-spent"
     | .errTs => "ts"
+    | .errFatal => "error-without-fatal-answer"
     | .errOther => "unexpected-error"
 
 def lexLt (a b : Nat × Nat) : Bool := a.1 < b.1 || (a.1 = b.1 && a.2 < b.2)
@@ -68,7 +72,7 @@ def stepLine (ss : Sess) (line : String) : Sess × String :=
     if !faultNames.contains t then (ss, "bad-op") else
     let c : Cfg := match ss.cfg with
       | some c => { c with hints := ss.hints }
-      | none => { n := 3, maxSleep := 2000, isWrite := false, tsInvalid := false, hints := ss.hints }  -- the harness' default cfg
+      | none => { n := 3, maxSleep := 2000, isWrite := false, tsInvalid := false, hints := ss.hints, shortRead := false }  -- the harness' default cfg
     ({ ss with cfg := some c, st := some (init c), trace := [], rejected := 0 }, "ok")
   | "ev" :: rest =>
     match ss.st, parseEv rest with
@@ -92,6 +96,7 @@ def stepLine (ss : Sess) (line : String) : Sess × String :=
         | "writeflags" => some (propWriteFlags c es)
         | "retrymarked" => some (propRetryMarked es)
         | "tsvalid" => some (propTsValid c es)
+        | "backoffdiscipline" => some (propBackoffDiscipline c.shortRead es)
         | _ => none
       match r with
       | some true => (ss, "ok")
